@@ -179,6 +179,87 @@ theorem begin_q (e : Env) (s s' : State) (h : nodeBeginBlock e s = .ok s') : qPa
     · simp only [pure, Except.pure, Except.ok.injEq] at h; rw [← h]
   · simp only [pure, Except.pure, Except.ok.injEq] at h; rw [← h]
 
+
+/-! ### every operation but the two capacity messages leaves `qPart` alone -/
+def isCapacityMsg : Op → Bool
+  | .addv .. => true
+  | .remv .. => true
+  | _ => false
+
+theorem atomic_q (s : State) (r : TxM State) (h : ∀ s', r = .ok s' → qPart s' = qPart s) : qPart (atomic s r).2 = qPart s := by
+  unfold atomic
+  split
+  · exact h _ rfl
+  · split <;> rfl
+
+theorem blocker_q (s : State) (r : TxM State) (h : ∀ s', r = .ok s' → qPart s' = qPart s) : qPart (blocker s r).2 = qPart s := by
+  unfold blocker
+  split
+  · exact h _ rfl
+  · split <;> rfl
+
+theorem stepC_q (e : Env) (s : State) (op : Op) (hop : isCapacityMsg op = false) : qPart (stepC e s op).2 = qPart s := by
+  cases op
+  case addv => cases hop
+  case remv => cases hop
+  case advance to seed => rfl
+  case begin_ => exact blocker_q _ _ (fun s' h => begin_q e s s' h)
+  case end_ => exact blocker_q _ _ (fun s' h => endBlock_q e s s' h)
+  case create c => exact atomic_q _ _ (fun s' h => nodeCreate_q e s s' c h)
+  case reset m => exact atomic_q _ _ (fun s' h => nodeReset_q e s s' m h)
+  case claim c =>
+    refine atomic_q _ _ (fun s' h => ?_)
+    cases hc : nodeClaimReward e s c with
+    | error m => rw [hc] at h; cases h
+    | ok v =>
+      rw [hc] at h
+      simp only [Except.map, Except.ok.injEq] at h
+      rw [← h]
+      exact nodeClaimReward_q e s v.1 c v.2 hc
+  case store m => exact atomic_q _ _ (fun s' h => saoStore_q e s s' m h)
+  case ready c p o => exact atomic_q _ _ (fun s' h => saoReady_q s s' c p o h)
+  case complete c p o sz ok cid => exact atomic_q _ _ (fun s' h => saoComplete_q e s s' c p o sz ok cid h)
+  case cancel c p o => exact atomic_q _ _ (fun s' h => saoCancel_q e s s' c p o h)
+  case terminate c p ow d sv sd => exact atomic_q _ _ (fun s' h => saoTerminate_q e s s' c p ow d sv sd h)
+  case renew c p sv sd du t data =>
+    refine atomic_q _ _ (fun s' h => ?_)
+    cases hc : saoRenew e s c p sv sd du t data with
+    | error m => rw [hc] at h; cases h
+    | ok v =>
+      rw [hc] at h
+      simp only [Except.map, Except.ok.injEq] at h
+      rw [← h]
+      exact saoRenew_q e s v.1 c p sv sd du t data v.2 hc
+  case migrate c p data => exact atomic_q _ _ (fun s' h => saoMigrate_q s s' c p data h)
+  case perm c p ow d ro rw sv => exact atomic_q _ _ (fun s' h => saoPermission_q s s' c p ow d ro rw sv h)
+  case report c p fs ids => exact atomic_q _ _ (fun s' h => saoReportFaults_q s s' c p fs ids h)
+  case recover c p fs ik => exact atomic_q _ _ (fun s' h => saoRecoverFaults_q s s' c p fs ik h)
+  case payaddr m => exact atomic_q _ _ (fun s' h => by rw [(didPayAddr_ok s s' m h).2]; rfl)
+  case binding m => exact atomic_q _ _ (fun s' h => by rw [(didBinding_ok s s' m h).2]; rfl)
+  case didupdate m => exact atomic_q _ _ (fun s' h => by obtain ⟨d, hd⟩ := didUpdate_ok s s' m h; rw [hd]; rfl)
+  all_goals rfl
+
+theorem step_q (e : Env) (y : Sys) (op : Op) (hop : isCapacityMsg op = false) : qPart (step e y op).2.st = qPart y.st := by
+  cases op
+  case delegate c v a =>
+    simp only [step, stepBase, stakeStep]
+    have := delegate_keepsQ e y.st y.global c v a
+    unfold keepsQ at this
+    split
+    · rename_i s' hs; rw [hs] at this; exact this
+    · rfl
+  case undelegate c v a =>
+    simp only [step, stepBase, stakeStep]
+    have := undelegate_keepsQ e y.st y.global c v a
+    unfold keepsQ at this
+    split
+    · rename_i s' hs; rw [hs] at this; exact this
+    · rfl
+  case restart => rfl
+  case genesis => rfl
+  case sim inner => rfl
+  all_goals exact stepC_q e y.st _ hop
+
 theorem unique_of_pledges {s s' : State} (h : s'.pledges = s.pledges) (hu : uniquePledges s) : uniquePledges s' := by
   unfold uniquePledges at hu ⊢; rw [h]; exact hu
 
